@@ -101,6 +101,16 @@ class Parser:
             )
         return token
 
+    def parse_int(self, token: Token) -> int:
+        """Return the value of a NUMBER or INTEGER token.
+
+        Python refuses to convert absurdly long digit strings.
+        """
+        try:
+            return int(token.value)
+        except ValueError as err:
+            raise PestGrammarSyntaxError("number out of range", token=token) from err
+
     def parse(self) -> tuple[dict[str, GrammarRule], list[str]]:
         grammar_doc: list[str] = []
         while self.current().kind == TokenKind.GRAMMAR_DOC:
@@ -280,22 +290,24 @@ class Parser:
             number = token
             if self.current().kind == TokenKind.RBRACE:
                 self.pos += 1
-                return RepeatExact(expr, int(number.value))
+                return RepeatExact(expr, self.parse_int(number))
 
             self.eat(TokenKind.COMMA)
 
             if self.current().kind == TokenKind.RBRACE:
                 self.pos += 1
-                return RepeatMin(expr, int(number.value))
+                return RepeatMin(expr, self.parse_int(number))
 
             stop = self.eat(TokenKind.NUMBER)
             self.eat(TokenKind.RBRACE)
-            return RepeatMinMax(expr, int(number.value), int(stop.value))
+            return RepeatMinMax(
+                expr, self.parse_int(number), self.parse_int(stop)
+            )
 
         if kind == TokenKind.COMMA:
             number = self.eat(TokenKind.NUMBER)
             self.eat(TokenKind.RBRACE)
-            return RepeatMax(expr, int(number.value))
+            return RepeatMax(expr, self.parse_int(number))
 
         raise PestGrammarSyntaxError("expected a number or a comma", token=token)
 
@@ -305,6 +317,7 @@ class Parser:
 
         self.eat(TokenKind.LBRACKET)
         if self.current().kind == TokenKind.INTEGER:
+            self.parse_int(self.current())
             start: str | None = self.next().value
         else:
             start = None
@@ -312,6 +325,7 @@ class Parser:
         self.eat(TokenKind.RANGE_OP)
 
         if self.current().kind == TokenKind.INTEGER:
+            self.parse_int(self.current())
             stop: str | None = self.next().value
         else:
             stop = None
